@@ -18,9 +18,9 @@ TECH = "deterministic simulation with fault injection: seeded search over operat
 
 # property -> (level text, level note, design ref)
 CLAIMED = {
- "C04": ("Seeded exploration: every run drives one real bufiox reader (io.Reader-backed over a simulated Source, or bytes-backed) through a random history of Next/Peek/Skip/ReadBinary/Release with boundary-valued sizes under a per-run delivery profile (1-byte/short/fill/request-relative chunks, zero-byte reads, stall, terminal error of five kinds at any offset, data with or before the error), allocator modes (ledger+poison / real) and an adversarial co-tenant, and compares every result with a cursor-over-bytes model, then drains the stream. Sampling, not proof; the right level because the property quantifies over histories x fault sequences, which only many diverse seeded runs can reach.",
+ "C04": ("Seeded exploration: every run drives one real bufiox reader (io.Reader-backed over a simulated Source, or bytes-backed) through a random history of Next/Peek/Skip/ReadBinary/Release with boundary-valued sizes under a per-run delivery profile (1-byte/short/fill/request-relative chunks, zero-byte reads, stall, terminal error of five kinds at any offset, data with or before the error), allocator modes (ledger+poison / real) and an adversarial co-tenant, and compares every result with a cursor-over-bytes model, then drains the stream; a share of runs uses a lockstep peer over hundreds of tiny requests, multi-megabyte streams, Release with an error argument and absurd counts on a reader that has reported its source's error. Sampling, not proof; the right level because the property quantifies over histories x fault sequences, which only many diverse seeded runs can reach.",
          "Trusted: the reference model (cursor over the keyed stream), the Source stub honouring io.Reader's contract, the allocator shim. Zero-read streaks are kept <= 8 (far below the conventional 100 bound); a permanent stall must end in any non-nil error.", "4 C04"),
- "C05": ("Seeded exploration: every run drives one real bufiox writer (io.Writer-backed over a simulated Sink, or bytes-backed over nil/empty/partly filled/full caller slices) through a random history of Malloc/WriteBinary/late, partial and repeated region fills/Flush with sizes from 0 to several buffers, with the Sink failing at a tape-chosen k-th write after accepting a strict prefix, allocator modes and co-tenant; compared with a region-list model (exactly once, in order, WrittenLen, returned and sticky error, sink prefix after failure, target slice of the bytes writer).",
+ "C05": ("Seeded exploration: every run drives one real bufiox writer (io.Writer-backed over a simulated Sink, or bytes-backed over nil/empty/partly filled/full caller slices) through a random history of Malloc/WriteBinary/late, partial and repeated region fills/Flush with sizes from 0 to several buffers, with the Sink failing at a tape-chosen k-th write after accepting any count from 0 to the full length (error values incl. one with a Timeout method), a share of histories re-executed with the failure at every k (fault enumeration), doubling runs and megabyte cycles, allocator modes and co-tenant; compared with a region-list model (exactly once, in order, WrittenLen, returned and sticky error, sink prefix after failure, target slice of the bytes writer).",
          "Trusted: the region-list model, the Sink stub (never a short write with nil error), the allocator shim. After a sink failure only stickiness and the prefix property are demanded. Multi-flush bytes-backed writers are not generated (undefined by the property).", "4 C05"),
  "C09": ("Seeded exploration of retention histories: every zero-copy slice returned by Next/Peek is kept and re-verified after every later operation, co-tenant step and pool flush until the next Release; writer regions are filled late/partially/repeatedly up to the Flush; caller memory is registered with the allocator shim and compared with snapshots. Runs under three allocator modes: ledger+poison (double/interior/caller-memory free and write-after-free detected at the call), fence (every buffer its own mmap region, PROT_NONE after Free plus guard page: any access after recycle faults and is attributed), and the real mcache with the co-tenant as the only adversary.",
          "Trusted: the allocator shim's ledger and fence bookkeeping, the keyed-content comparison. 'Never read again after recycle' is decided precisely only in fence mode; in ledger mode reads after free show up as poison in results.", "4 C09"),
@@ -29,9 +29,9 @@ CLAIMED = {
          "Value-space clauses (all 2^32 i32 values, etc.) are sampled with boundary bias only; exhaustive value enumeration is a different technique and not attempted. Trusted: reference encoder, Source/Sink stubs.", "4 C01"),
  "C02": ("Seeded exploration: well-formed value trees (all types, 11x11 key/value pairs swept over the batch, 0/1/2/many elements, fast and slow paths, nesting to 63, strings beyond the buffer size) with raw chunks in between and trailing bytes are delivered by a simulated Source to each stream-fed skipper, interleaved with Release, ordinary reads and pooled-decoder reuse; consumed length (ReadLen delta, Source cursor: no read-ahead), returned bytes and the following bytes are checked against the reference encoding, including final data arriving together with io.EOF. The two buffer skippers see the same bytes as differential partners.",
          "Trusted: reference encoder/length, Source stub. Value shapes are sampled, not enumerated.", "4 C02"),
- "C06": ("Seeded exploration through streams: parameter sets (incl. ACL token, empty/64KiB-scale strings, every padding residue, sizes aimed at just under/at/over the 65536 limit) are encoded into a DefaultWriter that already holds unflushed data (meta region allocated before, size field written after 0..many growths), into a bytes-backed writer and with EncodeToBytes; the caller writes the total length and a payload; the frame is judged by an independent layout parser and decoded through a fragmenting Source and with DecodeFromBytes; header length = bytes written = bytes consumed, payload delimited exactly.",
+ "C06": ("Seeded exploration through streams: parameter sets (incl. ACL token, empty/64KiB-scale strings, every padding residue, sizes aimed at just under/at/over the 65536 limit) are encoded into a DefaultWriter that already holds unflushed data (meta region allocated before, size field written after 0..many growths), into a bytes-backed writer and with EncodeToBytes; the caller writes the total length and a payload; the frame is judged by an independent layout parser and decoded through a fragmenting Source and with DecodeFromBytes; header length = bytes written = bytes consumed, payload delimited exactly. Further scenarios: 2..8 frames pipelined over one connection (one writer, one Source, one reader with Release between messages), and Encode into a bufiox.Writer that itself fails at its k-th call for every k.",
          "Trusted: independent TTHeader layout parser (wide arithmetic). Frames are compared canonically because Go map order is not seedable. Encode failing is always allowed by the property and only counted.", "4 C06"),
- "C08": ("Seeded exploration of malformed input reaching all five skippers, the three stream-fed ones through a fragmenting Source: generated value trees (incl. chains nested 1..70 of every container kind) pass through a fault transport (truncation at cut points biased to structural boundaries; corruption of type tags incl. >= 0x80, sizes 0x7fffffff/0x80000000/0xffffffff/size+-1, field ids; hostile requested type); every facility's accept/reject/extent is compared with an independent iterative reference parser per the Appendix A table; a simulated memory ceiling turns giant allocation requests into a recoverable event so hostile sizes can be presented safely.",
+ "C08": ("Seeded exploration of malformed input reaching all five skippers, the three stream-fed ones through a fragmenting Source: generated value trees (incl. chains nested 1..70 of every container kind) pass through a fault transport (truncation at cut points biased to structural boundaries; corruption of type tags incl. >= 0x80, sizes 0x7fffffff/0x80000000/0xffffffff/size+-1, field ids; hostile requested type); every facility's accept/reject/extent is compared with an independent iterative reference parser per the Appendix A table, and a share of cases is expanded over every cut point (fault enumeration over crash points); a simulated memory ceiling turns giant allocation requests into a recoverable event so hostile sizes can be presented safely.",
          "Trusted: reference parser. Depth 64 is exempt, unknown tags of empty containers are don't-care, simulated OOM is accepted only for positive declared sizes above the ceiling in facilities that buffer what they skip. Grammar enumeration is not attempted.", "4 C08"),
  "C10": ("Seeded exploration of hostile frames arriving over a stream: frames laid out by the reference builder from arbitrary section plans (any order, repeats, interleaved padding, transform ids) pass through truncation, structural-byte corruption with boundary values (size field 0/1/0x3fff/0x4000/0x4001/0x8000/0xffff, magic, protocol id, info ids, counts, string lengths) and splices, then reach Decode through a fragmenting Source and DecodeFromBytes. One-directional oracle as the property states: no panic/hang, bounded consumption, success only under the reference parser's necessary conditions, and then exact header/payload lengths and maps.",
          "Trusted: independent parser with wide arithmetic. Unknown info ids are don't-care for accept/reject; duplicate keys are don't-care for map equality. Field-value enumeration (all 65536 size fields) is not attempted.", "4 C10"),
